@@ -158,6 +158,15 @@ pub struct ReplayFile {
     /// recorded decision list (the process died before the list could be saved).
     #[serde(default)]
     pub rng_seed: Option<u64>,
+    /// Where in its worker's sequence this execution was: (worker index, iteration, thorough).
+    #[serde(default)]
+    pub worker_iter: Option<(u64, u64, bool)>,
+    /// Set when the violation does not reproduce from this one execution alone: replay then
+    /// re-runs the worker's executions 0..=iteration in a fresh process (state outside the
+    /// simulator's seams, e.g. a process-global the code under test added, carries over between
+    /// executions) and reports the last one.
+    #[serde(default)]
+    pub replay_with_history: bool,
     pub case: scen::Case,
     pub picks: String,
 }
@@ -395,6 +404,8 @@ fn cmd_worker(args: &[String]) {
                 stale_sites: stale_sites(&r.out),
                 markers: marks::all(),
                 rng_seed: None,
+                worker_iter: Some((worker, it - 1, thorough)),
+                replay_with_history: false,
                 case: case.clone(),
                 picks: encode_picks(&r.trace),
             };
@@ -444,6 +455,16 @@ fn cmd_worker(args: &[String]) {
 // ---------------------------------------------------------------------------------------------
 
 pub fn replay_file(rf: &ReplayFile, events: bool) -> ExecResult {
+    if let (true, Some((worker, iter, thorough))) = (rf.replay_with_history, rf.worker_iter) {
+        let weak = rf.case.cfg.is_weak();
+        let mut last = None;
+        for i in 0..=iter {
+            let es = exec_seed(rf.seed, &rf.property, worker, i);
+            let (case, rng) = case_for(&rf.property, thorough, weak, es);
+            last = Some(execute(&case, Source::Random(rng), events && i == iter));
+        }
+        return last.expect("at least one execution");
+    }
     if let Some(seed) = rf.rng_seed {
         return execute(&rf.case, Source::Random(Rng::new(seed)), events);
     }
